@@ -340,10 +340,17 @@ def validate_twin(parts_a, parts_b, mode, timeout=1800):
     return res
 
 
-def apalache_inductive(run_if_missing, timeout=2400):
-    """Inductive invariant of spec/CounterInd.tla (reservation scheme of the known-size kinds) with Apalache:
+IND_MODULES = {
+    "CounterInd": "3 threads, length 4, requests <= 6; unbounded number of calls and counter values",
+    "TicketInd": "3 threads, chunk sizes <= 5; unbounded number of calls, counter values and source length",
+}
+
+
+def apalache_inductive(run_if_missing, timeout=2400, module="CounterInd"):
+    """Inductive invariant of spec/CounterInd.tla (reservation scheme of the known-size kinds) or spec/TicketInd.tla
+    (ticket protocol of the Iterator wrapper) with Apalache:
     Init => IndInv; IndInv /\\ Next => IndInv'; IndInv => Safe.  Cached by the content of the file."""
-    path = os.path.join(SPEC, "CounterInd.tla")
+    path = os.path.join(SPEC, module + ".tla")
     key = "apalache_%s" % tree_hash([path])
     c = cache_get(key)
     if c or not run_if_missing:
@@ -351,8 +358,8 @@ def apalache_inductive(run_if_missing, timeout=2400):
     obligations = [("Init => IndInv", ["--init=Init", "--inv=IndInv", "--length=0"]),
                    ("IndInv /\\ Next => IndInv'", ["--init=IndInit", "--inv=IndInv", "--length=1"]),
                    ("IndInv => Safe", ["--init=IndInit", "--inv=Safe", "--length=0"])]
-    out = {"file": "spec/CounterInd.tla", "obligations": [], "constants": "3 threads, length 4, requests <= 6; unbounded number of calls and counter values"}
-    wd = os.path.join(WORK, "apalache")
+    out = {"file": "spec/%s.tla" % module, "obligations": [], "constants": IND_MODULES[module]}
+    wd = os.path.join(WORK, "apalache_" + module)
     os.makedirs(wd, exist_ok=True)
     for name, args in obligations:
         t0 = time.time()
